@@ -131,15 +131,37 @@ func checkConflicts[T Opcoder](groups []maskGroup[T]) error {
 			}
 
 			for _, o := range gj.opcodes {
-				opc, ok := gi.matchInstruction(o.opcode.Bytes)
-				if ok {
-					return duplicateOpcodeErr(o, opc)
+				for _, opc := range gi.opcodes {
+					if conflict(o.opcode, opc.opcode) {
+						return duplicateOpcodeErr(o, opc)
+					}
 				}
 			}
 		}
 	}
 
 	return nil
+}
+
+// conflict reports whether there is a byte sequence matched by both o1 and o2.
+//
+// Such a sequence exists if and only if the opcodes agree, in their common
+// prefix, on all the bits which are significant in both masks. Comparing just
+// bytes of one opcode with the other opcode is not sufficient as masks can
+// overlap only partially.
+func conflict(o1 Opcode, o2 Opcode) bool {
+	l := len(o1.Mask)
+	if len(o2.Mask) < l {
+		l = len(o2.Mask)
+	}
+
+	for i := 0; i < l; i++ {
+		if (o1.Bytes[i]^o2.Bytes[i])&o1.Mask[i]&o2.Mask[i] != 0 {
+			return false
+		}
+	}
+
+	return true
 }
 
 // Match matches a sequence of bytes to an instruction opcode.
